@@ -417,6 +417,63 @@ fn client_worker(
     let mut i = start;
     while i < max_index && now_ms() < deadline {
         let seed = derive(root, &format!("{}-client", spec.id), i);
+        if spec.id == "C18" && i % 3 == 2 {
+            // every third run of C18 is a store-level history (store.rs)
+            use crate::store::{gen_store_history, minimise_store, run_store_in_thread, StoreReplay};
+            let h = gen_store_history(seed);
+            let res = run_store_in_thread(&h);
+            out.runs += 1;
+            out.ops += res.stats.ops;
+            for (k, v) in res.stats.probes.iter() {
+                *out.probes.entry(k.clone()).or_insert(0) += v;
+            }
+            *out.faults_fired.entry("store_reload_after_prefix".into()).or_insert(0) += res.stats.ops;
+            if res.stats.nontrivial {
+                nontrivial.insert(fnv64(serde_json::to_string(&(h.n_towers, h.n_commitments, &h.ops)).unwrap().as_bytes()));
+            }
+            if want_digests {
+                out.digests.insert(i, res.stats.digest);
+            }
+            if let Some(f) = res.found.first() {
+                let sig = client_signature(spec.id, f);
+                if is_known_open(known, spec.id, &sig).is_some() {
+                    *out.known_seen.entry(sig.clone()).or_insert(0) += 1;
+                } else if !handled.contains(&sig) && handled.len() < 4 {
+                    handled.insert(sig.clone());
+                    let min = minimise_store(&h, &sig, 150);
+                    let dir = verif_dir().join("replays");
+                    let _ = std::fs::create_dir_all(&dir);
+                    let path = dir.join(format!("{}-{}-{}.json", spec.id, seed, sig8(&sig)));
+                    let rf = StoreReplay {
+                        property: spec.id.to_string(),
+                        signature: sig.clone(),
+                        detail: f.detail.clone(),
+                        engine: "store".into(),
+                        store_history: min,
+                    };
+                    std::fs::write(&path, serde_json::to_string_pretty(&rf).unwrap()).unwrap();
+                    let st = Command::new(std::env::current_exe().unwrap())
+                        .arg("--replay")
+                        .arg(&path)
+                        .stdout(Stdio::piped())
+                        .stderr(Stdio::piped())
+                        .output()
+                        .unwrap();
+                    if st.status.code() != Some(1) {
+                        eprintln!(
+                            "HARNESS ERROR: replay of {} in a fresh process did not reproduce (exit {:?})\n{}",
+                            path.display(),
+                            st.status.code(),
+                            String::from_utf8_lossy(&st.stdout)
+                        );
+                        std::process::exit(2);
+                    }
+                    out.violations.push((sig, path.to_string_lossy().to_string(), f.detail.clone()));
+                }
+            }
+            i += step;
+            continue;
+        }
         let h = gen_client_history(spec.id, seed);
         let res = run_client_in_thread(&h);
         out.runs += 1;
@@ -961,6 +1018,25 @@ pub fn cmd_selftest(args: &[String]) -> i32 {
 pub fn cmd_replay(args: &[String]) -> i32 {
     let Some(path) = args.first() else { return 2 };
     if let Ok(text) = std::fs::read_to_string(path) {
+        if let Ok(sr) = serde_json::from_str::<crate::store::StoreReplay>(&text) {
+            let res = crate::store::run_store_in_thread(&sr.store_history);
+            let hit = res
+                .found
+                .first()
+                .filter(|f| crate::client_check::client_signature(&sr.property, f) == sr.signature);
+            return match hit {
+                Some(f) => {
+                    println!("VIOLATION property={} replay={}", sr.property, path);
+                    println!("  signature: {}", sr.signature);
+                    println!("  at op #{} ({}): {}", f.op_index, f.op_kind, f.detail);
+                    1
+                }
+                None => {
+                    println!("replay {path}: violation with signature '{}' NOT reproduced", sr.signature);
+                    0
+                }
+            };
+        }
         if let Ok(cr) = serde_json::from_str::<crate::client_check::ClientReplay>(&text) {
             let res = crate::client_check::run_client_in_thread(&cr.client_history);
             if std::env::var("SIM_DEBUG").is_ok() {
